@@ -214,6 +214,21 @@ func simGen(r *rand.Rand, tier string, n int) []*wire.Case {
 		mk("d-ult-other-side", s)
 	}
 	{
+		s := base() // energy just short of full (within half a point): the ultimate cannot be used yet
+		s.ckind = []int{0, 3}
+		s.cenergy = []float64{99.5, 109.75}
+		s.ults = "1u100+2u100|1u100+2u100|1u100|2u100"
+		s.cycles = 3
+		mk("d-energy-almost-full", s)
+	}
+	{
+		s := base() // shielded defenders on both sides: the totals are those of the hits, not of the HP they removed
+		s.start = 5
+		s.progs = append(s.progs, "Bu1.300+Bu2.100+Bu3.400+Bu4.50")
+		s.cycles = 4
+		mk("d-shielded-totals", s)
+	}
+	{
 		s := base() // both sides wiped out in the same death check (a killing blow paid for with the last HP): one decision, one termination
 		s.ckind, s.cspd, s.cenergy, s.cattack, s.cskill, s.cult = []int{0}, []float64{0}, []float64{0}, []int{0}, []int{1}, []int{3}
 		s.ehp, s.espd, s.eaction = []float64{500}, []float64{90}, []int{4}
@@ -489,6 +504,8 @@ func simGen(r *rand.Rand, tier string, n int) []*wire.Case {
 				return fmt.Sprintf("S.%d", pick(r, 1, 2, -1, -3))
 			case k == 19 && r.Intn(2) == 0:
 				return "Z" // treats the unit lists it is handed as its own
+			case k == 19:
+				return fmt.Sprintf("B%s.%d", sel(), pick(r, 100, 300, 1000)) // shields: what a hit deals and what reaches HP differ
 			}
 			if canAttack {
 				return fmt.Sprintf("Ap.%d.1.%d", pick(r, 1, 2), dmg())
@@ -519,7 +536,7 @@ func simGen(r *rand.Rand, tier string, n int) []*wire.Case {
 		for c := 0; c < nc; c++ {
 			s.ckind = append(s.ckind, r.Intn(9))
 			s.cspd = append(s.cspd, pick(r, 0.0, 0, 10, 25.5, 40))
-			s.cenergy = append(s.cenergy, pick(r, 0.0, 50, 90, 100, 120))
+			s.cenergy = append(s.cenergy, pick(r, 0.0, 50, 90, 100, 120, 99.5, 99.75, 119.6, 89.5))
 			s.cattack = append(s.cattack, 1+r.Intn(nprogs-1))
 			s.cskill = append(s.cskill, 1+r.Intn(nprogs-1))
 			s.cult = append(s.cult, 1+r.Intn(nprogs-1))
